@@ -206,8 +206,7 @@ MDA = "gemseo.mda.base_mda.BaseMDA"
 DISC = "gemseo.core.discipline.discipline.Discipline"
 DOPT = "gemseo.formulations.disciplinary_opt.DisciplinaryOpt"
 schema(DISC + ".io#c17b", {"input_grammar": TSet(TStr), "output_grammar": TSet(TStr)})  # a grammar is seen through `name in grammar` / iteration only: its set of names
-schema(MDA + "#c17b", {"c17_declares_linear": TBool,  # model field: io.have_linear_relationships(...) of the MDA
-                       "coupling_structure": M17.CSREC, "io": TObj(DISC + ".io", schema_key=DISC + ".io#c17b")})
+schema(MDA + "#c17b", {"coupling_structure": M17.CSREC, "io": TObj(DISC + ".io", schema_key=DISC + ".io#c17b")})
 schema(BF + "#unused", {"_BaseFormulation__disciplines": DISCS, "c17_top_level_disciplines": DISCS,  # ghost: what get_top_level_disciplines() returns (abstract in BaseFormulation)
                         "optimization_problem": TObj(OP, schema_key=OP + "#c17mdf")})
 schema(MDFC + "#update", {"_BaseFormulation__disciplines": DISCS, "mda": TObj(MDA, schema_key=MDA + "#c17b"), "optimization_problem": TObj(OP, schema_key=OP + "#c17mdf")})
@@ -406,36 +405,73 @@ schema(IDFC + "#init", {"_BaseFormulation__disciplines": DISCS, "_settings": SET
                         "variable_sizes": TDict(TStr, TInt)})
 
 
-objective_adapter_is_linear = z3.Function("c17_objective_adapter_is_linear", INT, z3.BoolSort())  # of the formulation (object identity)
-
-
-def objective_is_linear(c):
-    """Whether the discipline adapter of the objective is linear: False for the MDA handed over by MDF (the factory model: a new MDA declares no
-    linear relationship), otherwise an uninterpreted fact about the formulation."""
-    d = c.arg("discipline") if "discipline" in c._args else None
-    if d is not None:
-        return c.old.discipline.c17_declares_linear
-    return objective_adapter_is_linear(z3.IntVal(c.arg("self").id))
+declare_ghost("c17_objective", MdoFun)  # the function last assigned to OptimizationProblem.objective
+declare_ghost("c17_objective_set", INT)  # number of such assignments
+np_zeros_of_dim = lambda n: np_zeros(val_of_int(n))  # noqa: E731
+design_dimension = z3.Function("c17_design_space_dimension", INT, INT)  # of a formulation whose design-space model has no `dimension` field
+FTYPE_NONE = ""  # MDOFunction.FunctionType.NONE
 
 
 @register
-class BuildObjectiveAbstract(Contract):
+class ObjectiveSetLogged(Contract):
+    targets = (OP + ".objective",)
+    setter = True
+    variant = "c17"
+    prop = ("C17",)
+    params = {"function": TMdoFun}
+    modifies = ("ghost:c17_objective", "ghost:c17_objective_set")
+    trusted = True
+    description = ("assumed: `problem.objective = function` stores the function as the objective of the problem (ghost c17_objective; its type becomes "
+                   "'obj') and has no other effect on the formulation or the design space")
+
+    def ensures(self, c):
+        return [("stored", c.new_ghost("c17_objective", MdoFun) == c.old.function),
+                ("counted", c.new_ghost("c17_objective_set", INT) == c.old_ghost("c17_objective_set", INT) + 1)]
+
+
+def _current_dimension(c):
+    """Dimension of the CURRENT design space of the formulation's problem (the filtered one when called at the end of a constructor)."""
+    ds = c.old.self.optimization_problem.design_space
+    try:
+        return ds.dimension
+    except AttributeError:
+        return design_dimension(z3.IntVal(c.arg("self").id))
+
+
+def objective_built_on(c, name_param, self_ref, dim):
+    """The objective assigned last is the one _build_objective_from_disc builds for a design space of dimension `dim`."""
+    from pyvc.plug_c17b import single_name_list
+
+    ffd = MdoFun.from_disc(single_name_list(TStr.embed(c.st, c.arg(name_param))), z3.IntVal(self_ref.id))
+    return c.new_ghost("c17_objective", MdoFun) == z3.If(adapter_linear(ffd), lin_of(ffd, np_zeros_of_dim(dim), str_lit(FTYPE_NONE)), ffd)
+
+
+schema(BF + "#objective", {"optimization_problem": TObj(OP, schema_key=OP + "#c17mdf")})
+
+
+@register
+class BuildObjective(Contract):
+    """The objective of the problem becomes the FunctionFromDiscipline of (the objective name, this formulation) or - when its discipline
+    adapter is linear - its linear approximation at the origin OF THE CURRENT DESIGN SPACE of the problem, zeros(design_space.dimension): the
+    objective is a function of the current design vector (the design space may have been filtered since variable_sizes was copied; since the
+    repair recorded in known_findings.json the point no longer has the adapter's input_dimension).  Nothing else is touched."""
+
     targets = (BF + "._build_objective_from_disc",)
     prop = ("C17",)
+    self_schema = BF + "#objective"
+    c17b = True
+    c17b_ffd_value = True
+    callee_variants = {OP + ".objective#setter": "c17"}
     params = {"objective_name": TStr}
-    trusted = True
-    description = ("assumed: _build_objective_from_disc only sets the objective of the optimization problem (no effect on the design space, on the "
-                   "constraints added so far, or on the formulation's attributes). Its precondition models the one of its call "
-                   "compute_linear_approximation(objective function of the FULL design vector, zeros(adapter.input_dimension)) with adapter.input_dimension = "
-                   "sum(formulation.variable_sizes.values()) (DisciplineAdapter.__compute_input_dimension with the sizes handed over by the generator): the "
-                   "linearisation point has the dimension of the design space iff variable_sizes has no other names than the design variables")
+    modifies = ("ghost:c17_objective", "ghost:c17_objective_set")
 
-    def requires(self, c):
-        s = c.old.self
-        vs, v = s.variable_sizes, s.optimization_problem.design_space._variables
-        x = z3.Const("x!bo", STR)
-        return [("linearisation-point-has-the-dimension-of-the-design-space",
-                 z3.Implies(objective_is_linear(c), z3.ForAll([x], z3.Implies(vs.member[x], v.member[x]), patterns=[vs.member[x]])))]
+    def ensures(self, c):
+        from pyvc.plug_c17b import single_name_list
+
+        ffd = MdoFun.from_disc(single_name_list(TStr.embed(c.st, c.arg("objective_name"))), z3.IntVal(c.arg("self").id))
+        linearised = lin_of(ffd, np_zeros_of_dim(_current_dimension(c)), str_lit(FTYPE_NONE))
+        return [("objective", c.new_ghost("c17_objective", MdoFun) == z3.If(adapter_linear(ffd), linearised, ffd)),
+                ("set-once", c.new_ghost("c17_objective_set", INT) == c.old_ghost("c17_objective_set", INT) + 1)]
 
 
 @register
@@ -485,7 +521,7 @@ class IdfInit(Contract):
     c17b_cs_record = CSREC
     c17b_opaque = {PCHAIN: PCHAIN + "#c17b"}
     params = {"disciplines": DISCS, "objective_name": TStr, "design_space": TObj(DSC, schema_key=DSC + "#c17")}
-    modifies = ("self", "ghost:c17_added", "ghost:c17_added_n")
+    modifies = ("self", "ghost:c17_added", "ghost:c17_added_n", "ghost:c17_objective", "ghost:c17_objective_set")
     raises = {"ValueError": _some_coupling_missing}
 
     def axioms(self, c):
@@ -526,7 +562,7 @@ class MdfInit(Contract):
     c17b_mda_schema = MDA + "#c17b"
     callee_variants = {BF + "._remove_unused_variables": "mdf"}
     params = {"disciplines": DISCS, "objective_name": TStr, "design_space": TObj(D2.DS)}
-    modifies = ("self", "design_space")
+    modifies = ("self", "design_space", "ghost:c17_objective", "ghost:c17_objective_set")
 
     def requires(self, c):
         return D2.wf(c.old.design_space)
@@ -540,6 +576,7 @@ class MdfInit(Contract):
         x = z3.Const("x!mi", STR)
         return D2.wf(c.new.design_space) + [
             ("problem-holds-the-design-space", z3.BoolVal(s1.optimization_problem.design_space.ref == c.arg("design_space"))),
+            ("objective-built-on-the-filtered-design-space", objective_built_on(c, "objective_name", c.arg("self"), c.new.design_space.dimension)),
             ("no-coupling-is-a-design-variable", z3.ForAll([j], z3.Implies(z3.And(0 <= j, j < cp.n), z3.Not(v1.has(cp.elems[j]))), patterns=[cp.elems[j]])),
             ("only-entry-variables-with-their-definitions", z3.ForAll([x], z3.Implies(v1.has(x), z3.And(v0.has(x), v1.vals[x] == v0.vals[x])), patterns=[v1.has(x)])),
             ("only-inputs-of-the-mda-are-kept", z3.ForAll([x], z3.Implies(v1.has(x), g.member[x]), patterns=[v1.has(x)])),
@@ -695,18 +732,11 @@ class DoptInit(Contract):
     c17b_init = True
     c17b_opaque_values = {CHAIN: "c17_chain_of"}
     params = {"disciplines": DISCS, "objective_name": TStr, "design_space": TObj(D2.DS)}
-    modifies = ("self", "design_space")
+    modifies = ("self", "design_space", "ghost:c17_objective", "ghost:c17_objective_set")
     raises = {"IndexError": lambda c: c.old.disciplines.n == 0}
 
     def requires(self, c):
         return D2.wf(c.old.design_space)
-
-    def finding_regions(self, c):
-        L = c.old.disciplines
-        top = z3.If(L.n > 1, chain_of(DISCS.dt.mk(L.n, L.elems)), L.elems[0])
-        x = z3.Const("x!fr17", STR)
-        unused = z3.Exists([x], z3.And(D2.V(c.old.design_space).has(x), z3.Not(inputs_of(top)[x])))
-        return {"linear-objective-and-unused-design-variable": z3.And(objective_adapter_is_linear(z3.IntVal(c.arg("self").id)), unused)}
 
     def ensures(self, c):
         s1 = c.new.self
@@ -720,6 +750,8 @@ class DoptInit(Contract):
         return out + D2.wf(c.new.design_space) + [
             ("the-discipline-or-the-chain-of-the-disciplines", top[0].term == expected),
             ("problem-holds-the-design-space", z3.BoolVal(s1.optimization_problem.design_space.ref == c.arg("design_space"))),
+            # a linear objective is linearised at the origin of the FILTERED design space
+            ("objective-built-on-the-filtered-design-space", objective_built_on(c, "objective_name", c.arg("self"), c.new.design_space.dimension)),
         ] + _dopt_kept(D2.V(c.old.design_space), D2.V(c.new.design_space), _tuple_inputs(top))
 
 
